@@ -290,6 +290,42 @@ func (mgrFamily) Exec(c *hc.Case) {
 		}
 		c.Outs = append(c.Outs, out)
 	}
+	// a create of a NEW name that panics half-way (a configuration constructor panics; the caller recovers) is a create
+	// that did not succeed: AllCircuits still holds exactly the created circuits, and the name can be created afterwards
+	{
+		boom := true
+		m.DefaultCircuitProperties = append(m.DefaultCircuitProperties, func(name string) circuit.Config {
+			if name == "late-panic" && boom {
+				boom = false
+				panic("constructor failed")
+			}
+			return circuit.Config{}
+		})
+		before := len(m.AllCircuits())
+		func() {
+			defer func() { _ = recover() }()
+			_, _ = m.CreateCircuit("late-panic")
+		}()
+		check := func(want int, when string) {
+			all := m.AllCircuits()
+			seen := map[*circuit.Circuit]bool{}
+			bad := len(all) != want
+			for _, x := range all {
+				if x == nil || seen[x] {
+					bad = true
+				}
+				seen[x] = true
+			}
+			if bad {
+				c.Viol = append(c.Viol, hc.Violation{Clause: "AllCircuits holds exactly the successfully created circuits", Detail: fmt.Sprintf("%s: %d entries (nil or repeated entries count as wrong), want %d distinct circuits", when, len(all), want), AtOp: len(c.Ops)})
+			}
+		}
+		check(before, "after a create whose constructor panicked")
+		if cir, err := m.CreateCircuit("late-panic"); err != nil || cir == nil || m.GetCircuit("late-panic") != cir {
+			c.Viol = append(c.Viol, hc.Violation{Clause: "for CreateCircuit calls with one name exactly one succeeds", Detail: fmt.Sprintf("the name of a create that panicked cannot be created afterwards: %v", err), AtOp: len(c.Ops)})
+		}
+		check(before+1, "after the retry succeeded")
+	}
 	for t := range tags {
 		c.Tags = append(c.Tags, t)
 	}
